@@ -981,6 +981,14 @@ def r5_slot_arithmetic(ctx, rid):
         raise AnalysisError(f"{rid}: _auto_param_indices reads its name sequence other than through enumerate/len")
 
 
+
+def r_str_membership(ctx, rid):
+    """The argument lists handed to generated functions are filtered by membership in collections, never in strings
+    (shared lint, see _strmember_lint): a substring test silently drops arguments whose name is a substring of e.g. 'dy'."""
+    from ._strmember_lint import membership_in_string
+    membership_in_string(ctx, rid)
+
+
 RULES = [
     # today: 20 (9 uses of the slot list in _generate_auto_files + 1 in the Jacobian block, 5 slot-bearing templates, 3 hand-over
     # tables, 2 chain links); the floor leaves room for two uses to turn into something else, the categories are required separately
@@ -989,4 +997,5 @@ RULES = [
     ("C18-R3", r3_states, 8),
     ("C18-R4", r4_time_slot, 4),
     ("C18-R5", r5_slot_arithmetic, 2),
+    ("C18-R6", r_str_membership, 1),
 ]
